@@ -30,7 +30,7 @@ QUICK = {'budget_s': 30}
 THOROUGH = {'budget_s': 300}
 EXPECTED_PROBES = ['flag_over_loaded', 'loaded_over_default', 'override_false_kept', 'undeclared_ignored',
                    'undeclared_allowed_then_declared', 'reset', 'restore_after_raise', 'malformed_yaml', 'non_dict_yaml',
-                   'failing_stream', 'redeclare_refused', 'none_value_loaded', 'wrapped_called_later']
+                   'failing_stream', 'redeclare_refused', 'none_value_loaded', 'wrapped_called_later', 'snapshot_in_test_metadata']
 
 _m = {}
 KEYS = ['alpha', 'beta', 'gamma', 'delta', 'eps', 'zeta']
@@ -39,10 +39,61 @@ VALUES = [1, 0, None, 'text', [1, 2], {'a': 1}, True, False, 2.5, '']
 NOT_SET = object()
 
 
+import enum as _enum
+
+
+class Mode(_enum.Enum):
+  FAST = 'fast'
+
+
+# values that are not base types: a snapshot that is "converted" instead of copied differs
+META_VALUES = [float('inf'), Mode.FAST, frozenset([1, 2]), (1, 2), 'text', 5, None, [1, {'k': (3, 4)}]]
+META_KEYS = ['c20_meta_a', 'c20_meta_b']
+
+
 def setup():
   env.import_openhtf()
   from openhtf.util import configuration
   _m['cfg'] = configuration
+  from workloads import logshapes
+  _m['ls'] = logshapes
+  # (declarations on the process-wide CONF cannot be undone: made once, here)
+  for k in META_KEYS:
+    if k not in configuration.CONF._declarations:   # pylint: disable=protected-access
+      configuration.CONF.declare(k, 'C20 snapshot key', default_value='default-' + k)
+
+
+def _snapshot_in_metadata(tape, viols, probes):
+  """The _asdict() snapshot stored in a test record's metadata agrees with the other views."""
+  import openhtf as htf
+  CONF = _m['cfg'].CONF
+  loaded = {}
+  for k in META_KEYS:
+    if tape.chance(700, 'meta_load'):
+      loaded[k] = tape.pick(META_VALUES, 'meta_val')
+  try:
+    if loaded:
+      CONF.load(_override=True, **loaded)
+    recs = []
+    t = htf.Test(_m['ls'].c20_noop_phase, test_name='c20snap')
+    t.add_output_callbacks(recs.append)
+    t.execute(test_start=None)
+    probes['snapshot_in_test_metadata'] = 1
+    if not recs:
+      viols.append({'clause': 'snapshot_run_produced_no_record', 'details': {}})
+      return
+    snap = recs[0].metadata.get('config') or {}
+    for k in META_KEYS:
+      want = CONF[k]
+      if k not in snap or type(snap[k]) is not type(want) or not _same(snap[k], want):
+        viols.append({'clause': 'metadata_snapshot_differs_from_reads', 'details': {
+            'key': k, 'snapshot': repr(snap.get(k, '<absent>'))[:50], 'read': repr(want)[:50]}})
+        return
+      if getattr(CONF, k) != want and not (want != want):
+        viols.append({'clause': 'attribute_differs_from_item', 'details': {'key': k}})
+        return
+  finally:
+    CONF.reset()
 
 
 class FailingStream(object):
@@ -340,6 +391,9 @@ def run_one(tape):
         probes['flag_over_loaded'] = 1
       if k in model.loaded and k not in model.flags and model.decl.get(k, NOT_SET) is not NOT_SET:
         probes['loaded_over_default'] = 1
+  if not viols and tape.chance(60, 'metadata_snapshot'):
+    _snapshot_in_metadata(tape, viols, probes)
+    hist.append('execute a Test and compare metadata[config]')
   if viols:
     viols[0]['details']['history'] = hist[-6:]
   dg = hashlib.sha1(repr(hist).encode()).hexdigest()
